@@ -19,6 +19,7 @@ import (
 	"math/rand"
 	"os"
 	"path/filepath"
+	"regexp"
 	"sort"
 	"strings"
 	"sync"
@@ -317,6 +318,126 @@ func hclOf(in *input) (string, error) {
 	}
 	b, err := in.d.marshal(s)
 	return string(b), err
+}
+
+// heldBytes: the []byte results of earlier marshals, kept (not copied) while other documents are marshalled, with the text they had
+// when they were returned; checked at the end of the run (a result must not change after it was handed out).
+var held []struct {
+	key  string
+	b    []byte
+	text string
+}
+
+func hold(in *input) {
+	if len(held) >= 3000 {
+		return
+	}
+	w := build(in.d, in.n, in.edges)
+	_, end := changes(w, in.n, in.edges, in.roles)
+	s := schema.New(in.d.schema)
+	for _, t := range end.Tables {
+		t.ForeignKeys = nil
+		t.Schema = s
+		s.Tables = append(s.Tables, t)
+	}
+	b, err := in.d.marshal(s)
+	if err != nil {
+		return
+	}
+	held = append(held, struct {
+		key  string
+		b    []byte
+		text string
+	}{in.key(), b, string(b)})
+}
+
+func checkHeld() {
+	for k, h := range held {
+		emit(ev{"ev": "obs", "op": "marshal-held", "input": h.key, "variant": "run", "k": 2 * k, "plan": "", "file": dig(h.text), "sum": "", "sorted": "", "same_schema": true, "err": "", "maxparents": 0})
+		emit(ev{"ev": "obs", "op": "marshal-held", "input": h.key, "variant": "run", "k": 2*k + 1, "plan": "", "file": dig(string(h.b)), "sum": "", "sorted": "", "same_schema": true, "err": "", "maxparents": 0})
+	}
+}
+
+var rePos = regexp.MustCompile(`:?\d+,\d+-\d+:?`)
+
+// multiSchemaDocs: documents over two schemas; the same blocks in every order must evaluate to the same thing - the same error when
+// a reference is ambiguous, the same statements otherwise.
+func multiSchemaDocs(d *dialect) map[string][]string {
+	if d.name == "sqlite" {
+		return nil
+	}
+	ty := "int"
+	if d.name == "postgres" {
+		ty = "integer"
+	}
+	tbl2 := func(sc, name, extra string) string {
+		return fmt.Sprintf("table %q %q {\n  schema = schema.%s\n  column \"id\" {\n    null = false\n    type = %s\n  }\n%s}\n", sc, name, sc, ty, extra)
+	}
+	// one label: the schema is given by the attribute only, references are written table.<name>
+	tbl := func(sc, name, extra string) string {
+		return fmt.Sprintf("table %q {\n  schema = schema.%s\n  column \"id\" {\n    null = false\n    type = %s\n  }\n%s}\n", name, sc, ty, extra)
+	}
+	fk := func(ref string) string {
+		return fmt.Sprintf("  column \"user_id\" {\n    null = true\n    type = %s\n  }\n  foreign_key \"fk_user\" {\n    columns = [column.user_id]\n    ref_columns = [%s.column.id]\n  }\n", ty, ref)
+	}
+	pk := "  primary_key {\n    columns = [column.id]\n  }\n"
+	sa, sb := "schema \"a\" {\n}\n", "schema \"b\" {\n}\n"
+	return map[string][]string{
+		// the reference table.users is ambiguous: both schemas hold a table of that name
+		"ambiguous-reference": {sa, sb, tbl("a", "users", pk), tbl("b", "users", pk), tbl("a", "orders", fk("table.users"))},
+		// qualified references
+		"qualified-reference": {sa, sb, tbl2("a", "users", pk), tbl2("b", "users", pk), tbl2("a", "orders", fk("table.a.users")), tbl2("b", "orders", fk("table.b.users"))},
+		// unambiguous unqualified reference across schemas
+		"unique-reference": {sa, sb, tbl("a", "users", pk), tbl("b", "orders", fk("table.users"))},
+	}
+}
+
+func runMultiSchema(rng *rand.Rand) {
+	for _, d := range dialects() {
+		for label, blocks := range multiSchemaDocs(d) {
+			key := d.name + "/multi-schema/" + label
+			eval := func(doc string) (string, string, string) {
+				var r schema.Realm
+				if err := d.eval([]byte(doc), &r); err != nil {
+					// positions inside the document move with the blocks
+					return "", "", "eval: " + rePos.ReplaceAllString(err.Error(), "")
+				}
+				var all, sorted []string
+				for _, s := range r.Schemas {
+					cs, err := d.differ.SchemaDiff(schema.New(s.Name), s)
+					if err != nil {
+						return "", "", "diff: " + err.Error()
+					}
+					if len(cs) == 0 {
+						continue
+					}
+					pl, err := d.plan.PlanChanges(context.Background(), "plan", cs)
+					if err != nil {
+						return "", "", "plan: " + err.Error()
+					}
+					for _, c := range pl.Changes {
+						all = append(all, c.Cmd)
+					}
+				}
+				sorted = append(sorted, all...)
+				sort.Strings(sorted)
+				return dig(all...), dig(sorted...), ""
+			}
+			p0, s0, e0 := eval(strings.Join(blocks, ""))
+			emit(ev{"ev": "obs", "op": "hcl", "input": key, "variant": "run", "k": 0, "plan": p0, "file": "", "sum": "", "sorted": s0, "same_schema": true, "err": e0, "maxparents": 0})
+			for k := 1; k <= 12; k++ {
+				pb := append([]string{}, blocks...)
+				rng.Shuffle(len(pb), func(i, j int) { pb[i], pb[j] = pb[j], pb[i] })
+				doc := strings.Join(pb, "")
+				p1, s1, e1 := eval(doc)
+				o := ev{"ev": "obs", "op": "hcl", "input": key, "variant": "perm", "k": k, "plan": p1, "file": "", "sum": "", "sorted": s1, "same_schema": true, "err": e1, "maxparents": 0}
+				if s1 != s0 || e1 != e0 {
+					o["doc"] = doc
+				}
+				emit(o)
+			}
+		}
+	}
 }
 
 func runHCL(in *input, tag string, runs, perms int, rng *rand.Rand) {
@@ -677,6 +798,7 @@ func main() {
 		}
 		if *hcl {
 			runHCL(in, *tag, *runs, *perms, rng)
+			hold(in)
 		}
 	}
 	// concurrent executions: every input `conc` times, interleaved with all the others over a pool of workers
@@ -712,6 +834,10 @@ func main() {
 	if *dirs {
 		runDirs(*runs+2, *tmp, rng)
 		runChkPerms()
+		runMultiSchema(rng)
+	}
+	if *hcl {
+		checkHeld()
 	}
 	out.Flush()
 	f.Close()
